@@ -632,7 +632,7 @@ def classify_inv(ctx, f, t, state, acc):
     return None
 
 
-def r_sel(ctx):
+def r_sel(ctx, only=('encode', 'decode')):
     """digit -> arc selection (encode) and its inverse (decode), per mode x out-degree x shuffle flag"""
     run = ctx.run
     run.rule('R-SEL', "encoder column = LIVE[d] / LIVE[argsort(TABLE[S, LIVE])[d]]; decoder digit = rank of the "
@@ -645,6 +645,8 @@ def r_sel(ctx):
     dec = ctx.p.func('dsw.spiderweb.decode')
     results = {}
     for f, name in ((enc, 'encode'), (dec, 'decode')):
+        if name not in only:
+            continue
         for loop in coder_loops(ctx, f):
             state, acc = loop.steps[0].state, loop.steps[0].acc
             degs = (2, 3, 4) if loop.mode == 'normal' else (2, 4)
